@@ -101,6 +101,8 @@ def cases(ctx):
         b = [[3 + 2**bits if bits < 64 else 3, 4], [5, 6 - 2**bits if bits < 64 else 6], [1, 2]]
         yield {"kind": "boolean_rows", "a": a, "b": b, "dtype_a": da, "dtype_b": "int64"}
         yield {"kind": "boolean_rows", "a": b, "b": a, "dtype_a": "int64", "dtype_b": da}
+    for off_ in (10 ** 6, 10 ** 12, -10 ** 9):
+        yield {"kind": "merge_runs", "vs": [off_, off_, off_ + 1, off_ + 1, off_ + 2, off_, off_ - 1, off_ - 1]}
     # tolerances given as powers of ten: `digits=None` must quantise float rows to exactly that many digits
     for k_ in range(1, 16):
         for m_ in (1, 2, 5):
@@ -135,7 +137,12 @@ def cases(ctx):
         elif k == "unique_bincount":
             yield {"kind": k, "vs": _vals(rng, 0, 6)}
         elif k == "merge_runs":
-            yield {"kind": k, "vs": _vals(rng, -2, 2, rng.randint(1, 12))}
+            vs_ = _vals(rng, -2, 2, rng.randint(1, 12))
+            if rng.random() < 0.4:
+                # the same runs far from zero: neighbours that differ by one are different at any magnitude
+                off_ = rng.choice([10 ** 6, -10 ** 9, 2 ** 40, 2 ** 53 - 5])
+                vs_ = [v + off_ for v in vs_]
+            yield {"kind": k, "vs": vs_}
         elif k == "group_min":
             n = rng.randint(1, 10)
             yield {"kind": k, "groups": _vals(rng, 0, 3, n), "data": _vals(rng, -9, 9, n)}
